@@ -2,10 +2,10 @@ SPECIFICATION Spec
 CONSTANTS
   Letters = {97, 98}
   MaxRules = 3
-  MaxLen = 4
+  MaxLen = 3
   Ops = {1, 2, 3, 7, 11, 128}
   StopAtHit = TRUE
-  CheckFlags = FALSE
+  CheckFlags = TRUE
   Bug = ""
   Deviations = {}
 INVARIANTS Spelling RefinesCursor NoHitIfDone HitIfBound PairExact LoopReportExact
